@@ -209,11 +209,9 @@ def compare_map(c, xm, base, o):
     if not o["Gid"].startswith("!"):
         toks = [] if o["Gid"] == "-" else o["Gid"].split(",")
         v, e = try_(lambda: xm.get_map_data("rotations"))
-        if n <= 3:
-            # the code as it is: the RGB/Euler branch assumes more than three original points (see the prop site
-            # and known finding C11-map-data-rotations-small-grid); the correspondence only pins that behaviour
-            if e is None or not e.startswith("ValueError:cannot reshape"):
-                return f"get_map_data('rotations') on a {n}-point grid: {e or 'no exception'} (model of the code expects the reshape error)"
+        if e is not None and n <= 3 and e.startswith("ValueError:cannot reshape"):
+            # the code as found: the RGB/Euler branch assumes more than three original points (known finding
+            # C11-map-data-rotations-small-grid, reported by the prop site); the correspondence tolerates it
             return None
         if e is not None:
             return f"get_map_data('rotations') raises {e}"
